@@ -52,7 +52,7 @@ from cv.harness.runner import HarnessError, Outcome, canon
 
 PROPERTY = "C11"
 TECHNIQUE = ("Hypothesis-generated compilation histories over pools of valid and (differently) invalid designs, "
-             "plus complete enumeration of ordered pairs IxV, VxV and of hash seeds; differential oracle against a "
+             "plus enumeration of ordered pairs IxV, VxV (complete in the thorough tier, every third pair in quick) and of hash seeds; differential oracle against a "
              "fresh-interpreter golden per design")
 RULE = (
     "case = history of compile / compile-fresh-copy / compile-same-object-again operations (optionally with the "
@@ -102,7 +102,7 @@ def _instances(targets, tier, first_only=False):
 def plan(tier):
     quick = tier == "quick"
     shards = []
-    n_hyp, per, maxlen = (10, 26, 10) if quick else (48, 60, 24)
+    n_hyp, per, maxlen = (8, 20, 10) if quick else (48, 60, 24)
     for i in range(n_hyp):
         shards.append({"kind": "hyp", "name": f"hist{i}", "examples": per, "maxlen": maxlen, "pool": i})
     n_ixv = 8 if quick else 24
@@ -129,7 +129,11 @@ def _dspec(name, vi):
 
 
 def enumerate(shard):  # noqa: A001 - name fixed by the module contract
-    for case in _enumerate_space(shard):
+    # quick tier: every third ordered pair of the IxV / VxV spaces (rotating with the shard), all of them in thorough
+    stride = 3 if (shard["tier"] == "quick" and shard["space"] in ("ixv", "vxv")) else 1
+    for k, case in _enumerate(_enumerate_space(shard)):
+        if stride > 1 and k % stride != shard["part"] % stride:
+            continue
         # tag = the pair space is enumerated completely for the victim (quick VxV takes every second predecessor)
         if shard["space"] == "ixv" or (shard["space"] == "vxv" and shard["tier"] != "quick"):
             case["space"] = shard["space"]
